@@ -45,6 +45,17 @@ type c08node struct {
 	node    *simnode.Node
 	states  *repos.ClientStateRepository
 	crashed bool
+	// slow store round trip: the slowAt-th operation of this node's handle takes slowDur of simulated time
+	opSeq   int
+	slowAt  int
+	slowDur time.Duration
+}
+
+// slow arms one slow storage round trip: the j-th operation from now on this node's handle parks its caller for d.
+// Store operations otherwise take no simulated time, so code that checks something, then talks to the store,
+// then acts on the check can only be overtaken by a whole concurrent clean-up when a round trip takes real time.
+func (n *c08node) slow(j int, d time.Duration) {
+	n.slowAt, n.slowDur = n.opSeq+j, d
 }
 
 type c08conn struct {
@@ -79,6 +90,9 @@ type c08run struct {
 	bad       map[string]bool // index -> currently mismatching (edge-triggered reporting)
 	reported  map[string]bool
 	tolerate  bool // a store error hit the current registration: only safety is demanded
+	phase     int           // where inside a heartbeat interval an extra lookup is made (0 none, 1 middle, 2 shortly before the next heartbeat)
+	lastHB    time.Duration // when the server last heard from the current connection (handshake or heartbeat)
+	closeErr  time.Duration // when a close was hit by an injected store error (0 = none): the runtime state may lag until its own lifetime has passed
 	moved     bool
 	crossed   bool
 	faulted   bool
@@ -93,8 +107,8 @@ func init() {
 	Register(&Scenario{
 		ID:    "C08",
 		Level: "exploration",
-		Rule: "each run wires 2-3 real server nodes over one shared backend drawn from {redis, memory, tiered(local memory + shared redis + persistent map)} with a drawn connection-record lifetime {5 min, 30 s}, heartbeat period {10 s, 30 s} and heartbeat timeout {60 s, 90 s}; one scripted client registers on a drawn node and then follows a drawn history of 3-10 events: heartbeat for {20 s .. 11 min} (total up to 30 simulated minutes), reconnect to a drawn node (older connection closed before / after / at a drawn point inside the new two-phase login without waiting for the old node / never closed so that the old node sweeps it after its heartbeat timeout), close (transport close or Disconnect command), crash of the current node (store handle fenced, no cleanup; then either silence for record lifetime + 150 s or an immediate login elsewhere), failed login and tunnel-type handshake of the same client on a drawn node, injected store error on the k-th (k=1..3) shared-record write of one login (runs with store errors contain no failed-login / tunnel events). " +
-			"After every event and every heartbeat, FindClientNode and the client runtime state are read on the surviving nodes and compared with the reference (node, connection) of the most recent successful control handshake still open. " +
+		Rule: "each run wires 2-3 real server nodes over one shared backend drawn from {redis, memory, tiered(local memory + shared redis + persistent map)} with a drawn connection-record lifetime {5 min, 30 s}, heartbeat period {10 s, 30 s, 7 s, 25 s} (dividing and not dividing the record lifetime) and heartbeat timeout {60 s, 90 s}; one scripted client registers on a drawn node and then follows a drawn history of 3-10 events: heartbeat for {20 s .. 11 min} (total up to 30 simulated minutes), reconnect to a drawn node (older connection closed before / after / at a drawn point inside the new two-phase login without waiting for the old node / never closed so that the old node sweeps it after its heartbeat timeout), close (transport close or Disconnect command), crash of the current node (store handle fenced, no cleanup; then either silence for record lifetime + 150 s or an immediate login elsewhere), failed login and tunnel-type handshake of the same client on a drawn node, one slow (20 ms) store round trip on the node whose connection is being replaced / closed while it handles a heartbeat, injected store error on the k-th (k=1..3) shared-record write of one login or on the k-th (k=1..6) shared-record read/write the closing node issues during a close (runs with store errors contain no failed-login / tunnel events), a heartbeat still in flight on the older connection while the client logs in again, a silent client whose late heartbeat arrives at the instant of the node's stale sweep, the node closing the connection itself (SessionManager.CloseConnection, as a kick / administrative disconnect does) from another task while a heartbeat of that connection is being handled. " +
+			"After every event, after every heartbeat and (per-run choice) in the middle of / 700 ms before the end of every heartbeat interval, FindClientNode and the client runtime state are read on the surviving nodes and compared with the reference (node, connection) of the most recent successful control handshake still open. " +
 			"Non-trivial: the client moved to another node while its older connection was still open, or stayed connected past the record lifetime, or a crash / store error fired; distinct = distinct schedule hashes of such runs.",
 		Real: []string{"internal/protocol/session SessionManager (handshake, heartbeat, CloseConnection, stale-connection sweep), connstate.Store, client registry", "internal/app/server ServerAuthHandler", "internal/cloud services/client state service + repos.ClientStateRepository", "internal/core/storage hybrid + memory + redis backends wired as storage.go/createHybridStorageTyped does", "internal/protocol/adapter BaseAdapter read loop", "internal/stream StreamProcessor"},
 		Stub: []string{"transport: simnet links", "redis server: miniredis inside the bubble", "persistent tier: simstore.Persist map", "client: scripted wire-protocol peer", "cross-node TCP pool: absent (SendCommandToClient is observed only through the FindClientNode it would call)"},
@@ -103,6 +117,8 @@ func init() {
 			"after a node crash the lookups must answer 'not connected' once record lifetime + 150 s have passed without a new handshake (the runtime state is documented to live 90 s = 3 heartbeat intervals)",
 			"the server-side connection id used as reference is read from the node's own connection table right after the handshake reply",
 			"under an injected store error on a registration write only safety is demanded (never a wrong node/connection once the older connection is gone); 'not found' is tolerated until the next successful handshake",
+			"one failed shared-record operation during a close must not keep the closed client resolvable through FindClientNode (two records, either deletion suffices); the single runtime-state record may survive until its documented lifetime (checked again 151 s later)",
+			"when a silent client's heartbeat meets the stale sweep, either outcome (connection swept / kept) is accepted; the client learns which by using the connection, and the lookups must agree with that outcome",
 			"an older connection the client never closes counts as open until the old node's sweep (heartbeat timeout + 2 sweep intervals) has passed",
 		},
 		Opt: func(tier string) simrt.Options {
@@ -137,12 +153,24 @@ func c08Build(w *simrt.World, r *c08run, nn int) error {
 		}
 		return false
 	}
+	backendSync := base.Sync
 	for i := 0; i < nn; i++ {
 		n := &c08node{idx: i, id: fmt.Sprintf("node-%c", 'a'+i)}
 		if i == 0 {
 			n.st = base
 		} else {
 			n.st = base.Handle(fmt.Sprintf("n%d", i))
+		}
+		n.st.Sync = func() {
+			if backendSync != nil {
+				backendSync()
+			}
+			n.opSeq++
+			if n.slowAt > 0 && n.opSeq == n.slowAt {
+				n.slowAt = 0
+				w.Fault("store.slow-round-trip")
+				w.Sleep(n.slowDur)
+			}
 		}
 		n.st.Filter = filter
 		n.st.CountWritesOnly = true
@@ -203,6 +231,14 @@ func (r *c08run) resetEpisode() {
 	r.lastOKAge = map[string]time.Duration{}
 }
 
+// nextPhase starts a new phase of the history (close, crash, silence) without a new registration: an index that
+// already mismatches stays "in its episode" (a stale record surviving the close is the same finding, not a new one)
+func (r *c08run) nextPhase() {
+	bad := r.bad
+	r.resetEpisode()
+	r.bad = bad
+}
+
 func (r *c08run) settle() { r.w.Sleep(13 * time.Millisecond) }
 
 func (r *c08run) viol(sig, format string, a ...any) {
@@ -214,12 +250,12 @@ func (r *c08run) viol(sig, format string, a ...any) {
 		fmt.Sprintf(format, a...), r.backend, r.ttl, r.hb, r.hbTO, len(r.nodes), strings.Join(tailStr(r.hist, 30), "\n"))
 }
 
-var c08Priority = []string{"store-error", "crash", "tunnel-handshake", "failed-login", "old-closed-concurrently", "old-closed-after", "old-abandoned", "same-node-reconnect", "record-lifetime-elapsed", "close", "disconnect-command", "reconnect", "first-connect"}
+var c08Priority = []string{"store-error-on-close", "store-error", "crash", "heartbeat-vs-", "server-close", "tunnel-handshake", "failed-login", "old-closed-concurrently", "old-closed-after", "old-abandoned", "same-node-reconnect", "record-lifetime-elapsed", "close", "disconnect-command", "reconnect", "first-connect"}
 
 // tag names the kind of history between the last all-matching check and now.
 func (r *c08run) tag(index string) string {
 	if r.tolerate {
-		return "store-error"
+		return "store-error" // an earlier registration write failed (never combined with a close-time error, see the close event)
 	}
 	for _, p := range c08Priority {
 		for _, s := range r.since[index] {
@@ -328,6 +364,10 @@ func (r *c08run) check(where string, only *c08node) {
 				flag("client-state", "lookup-error", fmt.Sprintf("runtime state read on %s failed: %v", n.id, serr))
 			}
 		case r.cur == nil:
+			if r.closeErr > 0 && now-r.closeErr < 150*time.Second {
+				// one store error during the close: the single runtime-state record may survive until its documented lifetime has passed
+				break
+			}
 			if st != nil && st.IsOnline() {
 				flag("client-state", "still-resolves", fmt.Sprintf("runtime state on %s says online at (%s,%s) although the client has no open connection", n.id, st.NodeID, st.ConnID))
 			}
@@ -392,7 +432,8 @@ func (r *c08run) dial(j int) *simnode.Client {
 // handshake performs the control handshake on a fresh transport to node j and
 // returns the connection if the client saw success. during (may be nil) is
 // run at the drawn point of the login: 0 before phase 1, 1 between the
-// phases, 2 after the phase-2 request has been sent and before its reply is read.
+// phases, 2 after the phase-2 request has been sent and before its reply is read,
+// 3 right after the reply has been read (the server registers the location after writing the reply).
 func (r *c08run) handshake(j int, first bool, at int, during func()) *c08conn {
 	cl := r.dial(j)
 	var resp *packet.HandshakeResponse
@@ -415,7 +456,7 @@ func (r *c08run) handshake(j int, first bool, at int, during func()) *c08conn {
 			}
 			req := &packet.HandshakeRequest{ClientID: r.id, Version: "3", Protocol: "tcp", ConnectionType: "control", ChallengeResponse: simnode.HMAC(r.secret, r1.Challenge)}
 			ok = cl.SendJSON(packet.Handshake, req) == nil
-			if at >= 2 {
+			if at == 2 {
 				during()
 			}
 			if ok {
@@ -425,6 +466,10 @@ func (r *c08run) handshake(j int, first bool, at int, during func()) *c08conn {
 					resp = &packet.HandshakeResponse{}
 					ok = json.Unmarshal(p.Payload, resp) == nil
 				}
+			}
+			if at >= 3 {
+				// the reply has arrived: the new node is still busy with the part of the handshake that follows the reply
+				during()
 			}
 		} else if at >= 1 {
 			during()
@@ -450,6 +495,9 @@ func (r *c08run) heartbeat() bool {
 		return false
 	}
 	_, ok := r.cur.cl.RecvType(packet.Heartbeat, 5*time.Second)
+	if ok {
+		r.lastHB = r.w.Now()
+	}
 	return ok
 }
 
@@ -475,10 +523,17 @@ func c08Run(w *simrt.World, tier string) {
 	r.backend = c08Backends[c.Intn(len(c08Backends), "backend")]
 	nn := 2 + c.Intn(2, "nodes")
 	r.ttl = []time.Duration{5 * time.Minute, 30 * time.Second}[c.Intn(2, "record.ttl")]
-	r.hb = []time.Duration{10 * time.Second, 30 * time.Second}[c.Intn(2, "heartbeat")]
-	if r.ttl <= 30*time.Second {
-		r.hb = 10 * time.Second // the client keeps the registration alive well inside its lifetime
+	// periods that divide the record lifetime and periods that do not (a record that is not really renewed then lapses in the middle of an interval)
+	r.hb = []time.Duration{10 * time.Second, 30 * time.Second, 7 * time.Second, 25 * time.Second}[c.Intn(4, "heartbeat")]
+	if r.ttl <= 30*time.Second && r.hb > 10*time.Second {
+		// the client keeps the registration alive well inside its lifetime
+		if r.hb == 25*time.Second {
+			r.hb = 7 * time.Second
+		} else {
+			r.hb = 10 * time.Second
+		}
 	}
+	r.phase = c.Intn(3, "lookup.phase")
 	r.hbTO = []time.Duration{60 * time.Second, 90 * time.Second}[c.Intn(2, "hb.timeout")]
 	r.sweep = 15 * time.Second
 	allowCrash := c.Intn(3, "swarm.crash") == 1
@@ -551,14 +606,37 @@ func c08Run(w *simrt.World, tier string) {
 			failArmed = true
 		}
 		var nc *c08conn
-		if prev != nil && variant == 3 {
-			// the old transport is closed at a drawn point of the new login and nobody waits for the old node:
-			// its cleanup interleaves with the new node's handshake at scheduling-point granularity
+		// a heartbeat may still be in flight on the older connection while the client already logs in again:
+		// the old node handles it concurrently with the new registration (and, on the same node, with being replaced)
+		hbInFlight := prev != nil && (variant == 1 || variant == 2) && !failArmed && c.Intn(2, "old.hb.inflight") == 1
+		if hbInFlight {
+			kind += "+heartbeat"
+			w.Probe("old.heartbeat.in-flight")
+			if j := c.Intn(5, "old.hb.slow.op"); j > 0 {
+				r.nodes[prev.node].slow(j, 20*time.Millisecond) // one store round trip of the old node is slow
+			}
+		}
+		if prev != nil && (variant == 3 || hbInFlight) {
+			// the old transport is used / closed at a drawn point of the new login and nobody waits for the old node:
+			// its work interleaves with the new node's handshake at scheduling-point granularity
 			p := prev
-			nc = r.handshake(j, false, c.Intn(3, "close.point"), func() { p.cl.Close() })
-			prev.open = false
+			nc = r.handshake(j, false, c.Intn(4, "close.point"), func() {
+				if hbInFlight {
+					p.cl.Send(packet.Heartbeat, nil)
+				}
+				if variant == 3 {
+					p.cl.Close()
+				}
+			})
+			if variant == 3 {
+				prev.open = false
+			}
 		} else {
 			nc = r.handshake(j, false, 0, nil)
+		}
+		if hbInFlight {
+			w.Sleep(25 * time.Millisecond) // let a slow round trip of the old node finish
+			r.nodes[prev.node].slowAt = 0
 		}
 		fired := false
 		if failArmed {
@@ -582,6 +660,8 @@ func c08Run(w *simrt.World, tier string) {
 			return
 		}
 		r.cur = nc
+		r.lastHB = nc.at
+		r.closeErr = 0
 		r.tolerate = fired
 		r.resetEpisode()
 		if fired {
@@ -628,7 +708,7 @@ func c08Run(w *simrt.World, tier string) {
 	}
 
 	for ev := 0; ev < nev && len(r.alive()) > 0; ev++ {
-		kind := c.Intn(12, "event")
+		kind := c.Intn(14, "event")
 		if r.cur == nil && kind != 5 {
 			connect(aliveIdx("connect.node"), 0)
 			continue
@@ -647,7 +727,20 @@ func c08Run(w *simrt.World, tier string) {
 			r.logf("client heartbeats every %v for %v on %s", r.hb, d, r.nodes[r.cur.node].id)
 			lost := false
 			for i := 0; i < k; i++ {
-				w.Sleep(r.hb)
+				switch r.phase {
+				case 0:
+					w.Sleep(r.hb)
+				default:
+					// an extra lookup in the middle of / shortly before the end of the heartbeat interval
+					a := r.hb / 2
+					if r.phase == 2 {
+						a = r.hb - 700*time.Millisecond
+					}
+					w.Sleep(a)
+					al := r.alive()
+					r.check(fmt.Sprintf("between heartbeats %d and %d", i, i+1), al[(i+1)%len(al)])
+					w.Sleep(r.hb - a)
+				}
 				if !r.heartbeat() {
 					r.viol("C08:heartbeat:connection-lost:"+r.tag("connstate"), "the server stopped answering heartbeats on the current connection %s after %d heartbeats", r.ref(), i)
 					lost = true
@@ -671,7 +764,17 @@ func c08Run(w *simrt.World, tier string) {
 		case kind == 7: // close
 			byCmd := c.Intn(2, "close.cmd") == 1
 			r.dropOlds() // the client's last connection is closed only when all of them are
-			r.resetEpisode()
+			r.nextPhase()
+			// fault: the k-th shared-record operation (read or write) the closing node issues fails once
+			cn := r.nodes[r.cur.node]
+			armed := false
+			if allowStoreErr && !r.tolerate && c.Intn(2, "close.storeerr") == 1 {
+				r.settle() // the older connections' clean-up is over
+				cn.st.CountWritesOnly = false
+				ops, _ := cn.st.Ops()
+				cn.st.FailAt = ops + 1 + c.Intn(6, "close.storeerr.k")
+				armed = true
+			}
 			if byCmd {
 				r.cur.cl.SendCommand(&packet.CommandPacket{CommandType: packet.Disconnect, CommandId: "bye"})
 				r.settle()
@@ -683,7 +786,26 @@ func c08Run(w *simrt.World, tier string) {
 			r.logf("client closes %s (disconnect command=%v)", r.ref(), byCmd)
 			r.cur = nil
 			r.settle()
+			fired := false
+			if armed {
+				ops, _ := cn.st.Ops()
+				fired = ops >= cn.st.FailAt
+				k := cn.st.FailAt
+				cn.st.FailAt = 0
+				cn.st.CountWritesOnly = true
+				if fired {
+					r.closeErr = w.Now()
+					r.faulted = true
+					r.event("store-error-on-close")
+					r.logf("one shared-record operation of %s failed during that close (operation #%d of the node)", cn.id, k)
+				}
+			}
 			r.check("after close", nil)
+			if fired && budget > 151*time.Second {
+				budget -= 151 * time.Second
+				w.Sleep(151 * time.Second)
+				r.check("runtime-state lifetime after a close hit by a store error", nil)
+			}
 			w.Probe("close")
 		case kind == 8: // crash of the current node
 			if !allowCrash || len(r.alive()) < 2 {
@@ -708,7 +830,7 @@ func c08Run(w *simrt.World, tier string) {
 			}
 			r.olds = keep
 			r.tolerate = false
-			r.resetEpisode()
+			r.nextPhase()
 			r.event("crash")
 			if c.Intn(2, "crash.then") == 0 {
 				r.dropOlds()
@@ -721,6 +843,73 @@ func c08Run(w *simrt.World, tier string) {
 				r.logf("nothing reconnects for %v", wait)
 				r.check("record lifetime after crash", nil)
 			}
+		case kind == 13: // the node itself closes the connection (kick / administrative disconnect), possibly while a heartbeat is being handled
+			r.dropOlds()
+			r.settle()
+			r.nextPhase()
+			cur := r.cur
+			sm := r.nodes[cur.node].node.SM
+			withHB := c.Intn(3, "kick.heartbeat") != 0
+			lead := c.Intn(4, "kick.lead") // how far the heartbeat may get before the close starts
+			tag := "server-close"
+			kn := r.nodes[cur.node]
+			if withHB {
+				tag = "heartbeat-vs-server-close"
+				if j := c.Intn(5, "kick.slow.op"); j > 0 {
+					kn.slow(j, 20*time.Millisecond) // one of the heartbeat's (or the close's) store round trips is slow
+				}
+				cur.cl.Send(packet.Heartbeat, nil)
+			}
+			kick := w.Spawn(fmt.Sprintf("kick-%d", ev), func() {
+				for i := 0; i < lead*40; i++ {
+					w.Yield("c08.kick.lead")
+				}
+				sm.CloseConnection(cur.connID)
+			})
+			kick.Wait()
+			w.Sleep(25 * time.Millisecond)
+			kn.slowAt = 0
+			r.settle()
+			r.logf("%s closes %s itself (heartbeat in flight=%v)", r.nodes[cur.node].id, cur.connID, withHB)
+			cur.cl.Close()
+			r.cur = nil
+			r.settle()
+			r.event(tag)
+			r.check("after "+tag, nil)
+			w.Probe(tag)
+		case kind == 12: // the client falls silent; its next heartbeat reaches the node at the instant the stale sweep runs
+			r.dropOlds()
+			r.settle()
+			due := r.lastHB + r.hbTO
+			tick := (due/r.sweep + 1) * r.sweep // first sweep after the heartbeat timeout has run out
+			wait := tick - w.Now()
+			if wait <= 0 || wait > budget {
+				continue
+			}
+			budget -= wait
+			r.nextPhase()
+			w.Sleep(wait)
+			r.cur.cl.Send(packet.Heartbeat, nil)
+			r.settle()
+			// whether the sweep or the heartbeat won is the server's business; the client finds out by using the connection
+			for i := 0; i < 4; i++ {
+				if _, ok := r.cur.cl.Recv(50 * time.Millisecond); !ok {
+					break
+				}
+			}
+			alive := r.heartbeat()
+			r.event("heartbeat-vs-sweep")
+			if alive {
+				r.logf("client was silent for %v, its heartbeat met the sweep of %s and the connection survived", (w.Now() - due + r.hbTO).Round(time.Second), r.nodes[r.cur.node].id)
+				w.Probe("late-heartbeat.survived")
+			} else {
+				r.logf("client was silent for %v, its heartbeat met the sweep of %s and the node closed %s", (w.Now() - due + r.hbTO).Round(time.Second), r.nodes[r.cur.node].id, r.cur.connID)
+				r.cur.cl.Close()
+				r.cur = nil
+				w.Probe("late-heartbeat.swept")
+			}
+			r.settle()
+			r.check("after late heartbeat vs sweep", nil)
 		case kind == 9: // failed login elsewhere
 			if !allowOdd {
 				continue
